@@ -226,7 +226,17 @@ impl<'tcx> Cx<'tcx> {
       let evaluable = match c {
         Const::Val(..) | Const::Ty(..) => true,
         // named constants of other crates (u8::MAX, i32::MIN, ...): safe to evaluate, no local MIR is stolen
-        Const::Unevaluated(u, _) => !u.def.is_local() && u.promoted.is_none(),
+        // ... and named integer constants of this crate without generic arguments (`const HEAP_TAG: u8 = 255`): evaluating
+        // them runs the const's own MIR pipeline only, no function body is stolen
+        Const::Unevaluated(u, _) => {
+          u.promoted.is_none()
+            && (!u.def.is_local()
+              || (u.args.is_empty()
+                && matches!(
+                  self.tcx.def_kind(u.def),
+                  rustc_hir::def::DefKind::Const { .. } | rustc_hir::def::DefKind::AssocConst { .. }
+                )))
+        }
       };
       if evaluable {
         if let Some(si) = c.try_eval_scalar_int(self.tcx, typing_env) {
